@@ -4,6 +4,7 @@
   `V25.nonlocalOnly` the snapshot plus `nonlocal filter_set` in `init_filter_set`.
 -/
 import SV.Proofs.C19
+import SV.Proofs.C19Pipeline
 
 namespace SV.Props.C19
 open SV.Model.C19 SV.Spec.C19 SV.Proofs.C19
@@ -266,6 +267,215 @@ theorem all_scopes_order (mt : Nat → Nat → Bool) (s : St) (t : Target) (o : 
       (applyToContainer mt s 0 t (some o)).map (fun _ => 0) ++ (applyToContainer mt s 1 t (some o)).map (fun _ => 1) ++
       (applyToContainer mt s 2 t (some o)).map (fun _ => 2) := by
   simp [applyAll, List.map_append, List.map_map, Function.comp_def]
+
+/-! ### the strategy built for an operation: which hook FUNCTION every stage calls when a value is drawn
+
+  `stagesOf` is the code-shaped model of `apply_to_all_dispatchers` / `as_strategy._apply_hooks`: loops that assign
+  one local variable `hook`, skip, and hand closures to `.filter/.map/.flatmap`; `specStages` is the property's
+  reading (per scope, per kind, the registered hooks whose OWN filter admits the operation, in registration order,
+  each stage calling that very hook with the context of that operation). -/
+
+/-- every state: the closures built with `partial(hook, context)` call exactly the hooks the property prescribes —
+    same scope, same kind, same order, same hook function, context of the operation the strategy is built for -/
+theorem pipeline_is_spec (mt : Nat → Nat → Bool) (s : St) (withTest : Bool) (t : Target) (o : Nat) :
+    stagesOf .byValue .repaired mt s withTest t o = specStages mt (filterOf s) s.hooks withTest t o := by
+  unfold stagesOf specStages
+  congr 1
+  funext d
+  rw [skipsFor_repaired, frameOf_resolve]
+  simp [List.map_flatMap, List.map_map, kept_true, Function.comp_def]
+
+/-- … hence after ANY registration history (repaired `to_filterable_hook`) the stages are those the aliasing-free
+    reference machine prescribes: a hook's stage is there iff the filters chained on its own decorator expression
+    admit the operation, whatever was registered before or after, by whatever decorator form -/
+theorem pipeline_after_history (nM : Nat) (disp : Nat → Nat) (ops : List Op) (mt : Nat → Nat → Bool) (withTest : Bool)
+    (t : Target) (o : Nat) :
+    stagesOf .byValue .repaired mt (run .repaired (init nM disp) ops) withTest t o =
+      specStages mt (afilterOf (arun (ainit nM disp) ops)) (arun (ainit nM disp) ops).hooks withTest t o := by
+  rw [pipeline_is_spec]
+  obtain ⟨h1, _, h3⟩ := own_filter_refines nM disp ops
+  have h1' : filterOf (run .repaired (init nM disp) ops) = afilterOf (arun (ainit nM disp) ops) := funext h1
+  rw [h3, h1']
+
+/-- … and so is the strategy itself, for every behaviour of the user's hook functions and every base strategy -/
+theorem strategy_after_history {α : Type} (I : Interp α) (base : Strat α) (nM : Nat) (disp : Nat → Nat) (ops : List Op)
+    (mt : Nat → Nat → Bool) (withTest : Bool) (t : Target) (o : Nat) :
+    denote I (untag (stagesOf .byValue .repaired mt (run .repaired (init nM disp) ops) withTest t o)) base =
+      denote I (untag (specStages mt (afilterOf (arun (ainit nM disp) ops)) (arun (ainit nM disp) ops).hooks
+        withTest t o)) base := by
+  rw [pipeline_after_history]
+
+/-- membership in the prescribed stages -/
+theorem specStages_mem (mt : Nat → Nat → Bool) (filt : Nat → Option FS) (hooks : Nat → List (HookName × Nat))
+    (withTest : Bool) (t : Target) (o : Nat) (d : Nat) (a : Action) (h : Nat) (c : Option Nat) :
+    (d, a, h, c) ∈ specStages mt filt hooks withTest t o ↔
+      (d = 0 ∨ d = 1 ∨ (d = 2 ∧ withTest = true)) ∧ c = some o ∧
+      (HookName.gen a t, h) ∈ hooks d ∧ specApplies mt (filt h) o = true := by
+  simp only [specStages, ownMatching, List.mem_flatMap, List.mem_map, List.mem_filter, Bool.and_eq_true,
+    decide_eq_true_eq]
+  constructor
+  · rintro ⟨d', hd', a', _, h', ⟨⟨n, h''⟩, ⟨hp, hn, happ⟩, rfl⟩, heq⟩
+    cases heq
+    simp only at hn
+    subst hn
+    refine ⟨?_, rfl, hp, happ⟩
+    cases withTest <;> simp [scopes] at hd' ⊢ <;> omega
+  · rintro ⟨hd, rfl, hp, happ⟩
+    refine ⟨d, ?_, a, by cases a <;> simp [actions], h, ⟨(HookName.gen a t, h), ⟨hp, rfl, happ⟩, rfl⟩, rfl⟩
+    cases withTest <;> simp [scopes] at hd ⊢ <;> omega
+
+/-- Draw time, any choice sequence: if the user's `before_generate` hooks hand the strategy on and the strategies
+    returned by `flatmap` hooks call no hooks themselves, the hook calls made while a value is drawn are, in order,
+    a prefix of the non-`before_generate` stages — and ALL of them, each exactly once, when the draw is accepted. -/
+theorem draw_calls_exact {α : Type} (I : Interp α) (hbg : ∀ h c st, I.bg h c st = st)
+    (hq : ∀ h c v cs, (I.flat h c v cs).1 = []) (base : Strat α) (hb : ∀ cs, (base cs).1 = [])
+    (xs : List (Action × Nat × Option Nat)) (cs : List Nat) :
+    ((denote I xs base cs).1.map Call.key) <+: drawStages xs ∧
+    ((denote I xs base cs).2.isSome = true → (denote I xs base cs).1.map Call.key = drawStages xs) := by
+  have hg : Good [] base := by
+    intro cs
+    simp [hb, drawStages]
+  simpa [denote] using good_foldl I hbg hq xs [] base hg cs
+
+/-- "hooks of all applicable scopes are all applied to generated data", with the filters: in an accepted draw for
+    operation `o` after any history, hook function `h` is called as a `filter`/`map`/`flatmap` hook with context `c`
+    iff `c` is the context of `o`, `h` is registered under that name on the GLOBAL, the schema's or (if given) the
+    test's dispatcher, and the filters chained on its own decorator expression admit `o`. -/
+theorem draw_calls_where {α : Type} (I : Interp α) (hbg : ∀ h c st, I.bg h c st = st)
+    (hq : ∀ h c v cs, (I.flat h c v cs).1 = []) (base : Strat α) (hb : ∀ cs, (base cs).1 = [])
+    (nM : Nat) (disp : Nat → Nat) (ops : List Op) (mt : Nat → Nat → Bool) (withTest : Bool) (t : Target) (o : Nat)
+    (cs : List Nat) (a : Action) (h : Nat) (c : Option Nat) :
+    let strat := denote I (untag (stagesOf .byValue .repaired mt (run .repaired (init nM disp) ops) withTest t o)) base
+    let ref := arun (ainit nM disp) ops
+    (strat cs).2.isSome = true →
+      ((a, h, c) ∈ (strat cs).1.map Call.key ↔
+        a ≠ .beforeGenerate ∧ c = some o ∧
+        ∃ d, (d = 0 ∨ d = 1 ∨ (d = 2 ∧ withTest = true)) ∧ (HookName.gen a t, h) ∈ ref.hooks d ∧
+          specApplies mt (afilterOf ref h) o = true) := by
+  intro strat ref hacc
+  have hk := (draw_calls_exact I hbg hq base hb _ cs).2 hacc
+  show (a, h, c) ∈ (strat cs).1.map Call.key ↔ _
+  rw [hk, pipeline_after_history]
+  simp only [drawStages, untag, List.mem_filter, List.mem_map]
+  constructor
+  · rintro ⟨⟨⟨d, a', h', c'⟩, hm, heq⟩, hne⟩
+    cases heq
+    obtain ⟨hd, hc, hp, happ⟩ := (specStages_mem _ _ _ _ _ _ _ _ _ _).1 hm
+    exact ⟨by simpa using hne, hc, d, hd, hp, happ⟩
+  · rintro ⟨hne, hc, d, hd, hp, happ⟩
+    exact ⟨⟨(d, a, h, c), (specStages_mem _ _ _ _ _ _ _ _ _ _).2 ⟨hd, hc, hp, happ⟩, rfl⟩, by simpa using hne⟩
+
+/-- data flow: through the harness hooks (`map`/`flatmap` hook `h` appends `h` to the value) the drawn value lists the
+    value-changing stages in order — every stage receives what the previous one produced -/
+theorem probe_draw_value (xs : List (Action × Nat × Option Nat)) (v : List Nat) (cs : List Nat) :
+    (denote probe xs (sPure v) cs).2 = some (v ++ valueStages xs, cs) :=
+  probe_foldl xs (sPure v) v (fun _ => rfl) cs
+
+/-- `BaseSchema.dispatch_hook` (`before_init_operation`, `before_process_path`, …): a hook runs iff it is registered
+    under that name on one of the applicable scopes and its own filter admits the operation; GLOBAL first, then the
+    schema's, then the test's -/
+theorem dispatch_all_scopes (mt : Nat → Nat → Bool) (s : St) (withTest : Bool) (n : HookName) (o d h : Nat) :
+    (d, h) ∈ dispatchAll mt s withTest n (some o) ↔
+      (d = 0 ∨ d = 1 ∨ (d = 2 ∧ withTest = true)) ∧ (n, h) ∈ s.hooks d ∧ specApplies mt (filterOf s h) o = true := by
+  simp only [dispatchAll, List.mem_flatMap, List.mem_map]
+  constructor
+  · rintro ⟨d', hd', h', hm, heq⟩
+    cases heq
+    refine ⟨?_, (dispatch_where mt s d n o h).1 hm⟩
+    cases withTest <;> simp [scopes] at hd' ⊢ <;> omega
+  · rintro ⟨hd, hm⟩
+    refine ⟨d, ?_, h, (dispatch_where mt s d n o h).2 hm, rfl⟩
+    cases withTest <;> simp [scopes] at hd ⊢ <;> omega
+
+/-- … and a hook dispatched without an operation (`before_process_path`) runs wherever it is registered -/
+theorem dispatch_all_no_operation (mt : Nat → Nat → Bool) (s : St) (withTest : Bool) (n : HookName) (d h : Nat) :
+    (d, h) ∈ dispatchAll mt s withTest n none ↔ (d = 0 ∨ d = 1 ∨ (d = 2 ∧ withTest = true)) ∧ (n, h) ∈ s.hooks d := by
+  simp only [dispatchAll, dispatch, byName, shouldSkip_no_operation, List.mem_flatMap, List.mem_map, List.mem_filter,
+    Bool.not_false, and_true]
+  constructor
+  · rintro ⟨d', hd', h', ⟨⟨n', h''⟩, ⟨hp, hn⟩, rfl⟩, heq⟩
+    cases heq
+    simp only [decide_eq_true_eq] at hn
+    subst hn
+    refine ⟨?_, hp⟩
+    cases withTest <;> simp [scopes] at hd' ⊢ <;> omega
+  · rintro ⟨hd, hp⟩
+    refine ⟨d, ?_, h, ⟨(n, h), ⟨hp, by simp⟩, rfl⟩, rfl⟩
+    cases withTest <;> simp [scopes] at hd ⊢ <;> omega
+
+theorem dispatch_all_order (mt : Nat → Nat → Bool) (s : St) (n : HookName) (o : Option Nat) :
+    (dispatchAll mt s true n o).map (·.2) = dispatch mt s 0 n o ++ dispatch mt s 1 n o ++ dispatch mt s 2 n o := by
+  simp [dispatchAll, scopes, List.map_map, Function.comp_def]
+
+/-- the F26 snapshot of `_apply_hooks` (no skip test): every registered `*_case` hook gets a stage, whatever its filter -/
+theorem case_pipeline_asFound (mt : Nat → Nat → Bool) (s : St) (withTest : Bool) (o : Nat) :
+    stagesOf .byValue .asFound mt s withTest .case o =
+      (scopes withTest).flatMap fun d => actions.flatMap fun a =>
+        (allNamed (s.hooks d) (.gen a .case)).map fun h => (d, a, h, some o) := by
+  unfold stagesOf
+  congr 1
+  funext d
+  have hs : skipsFor .asFound .case = false := rfl
+  rw [hs, frameOf_resolve]
+  simp [List.map_flatMap, List.map_map, kept_false, Function.comp_def]
+
+/-- binding the hook by value is necessary: with closures over the loop variable (`lambda v: hook(context, v)`) every
+    stage of a dispatcher calls the hook the loops visited LAST — here hook 1, restricted to operation 0, is called for
+    operation 1 (which its filter excludes) in place of the unfiltered hook 0, and twice for operation 0 -/
+theorem late_binding_applies_skipped_hook :
+    let s := run .repaired (init 1 fun _ => 0)
+      [.registerFn 0 0 (.gen .flatmap .case), .regApply 0 true 0, .registerFn 0 1 (.gen .flatmap .case)]
+    let mt : Nat → Nat → Bool := fun f o => f == 0 && o == 0
+    specApplies mt (filterOf s 0) 1 = true ∧ specApplies mt (filterOf s 1) 1 = false ∧
+    stagesOf .byValue .repaired mt s false .case 1 = [(0, .flatmap, 0, some 1)] ∧
+    stagesOf .byCell .repaired mt s false .case 1 = [(0, .flatmap, 1, some 1)] := by
+  decide
+
+/-- … and where both hooks match, the last one is called twice and the first one never -/
+theorem late_binding_drops_earlier_hook :
+    let s := run .repaired (init 1 fun _ => 0)
+      [.registerFn 0 0 (.gen .flatmap .case), .regApply 0 true 0, .registerFn 0 1 (.gen .flatmap .case)]
+    let mt : Nat → Nat → Bool := fun f o => f == 0 && o == 0
+    stagesOf .byValue .repaired mt s false .case 0 = [(0, .flatmap, 0, some 0), (0, .flatmap, 1, some 0)] ∧
+    stagesOf .byCell .repaired mt s false .case 0 = [(0, .flatmap, 1, some 0), (0, .flatmap, 1, some 0)] := by
+  decide
+
+/-- with one hook per run of the loops late binding is invisible (why single-hook tests cannot see it) -/
+theorem late_binding_single_hook_same :
+    let s := run .repaired (init 1 fun _ => 0) [.regApply 0 true 0, .registerFn 0 0 (.gen .flatmap .case)]
+    let mt : Nat → Nat → Bool := fun f o => f == 0 && o == 0
+    stagesOf .byCell .repaired mt s true .case 0 = stagesOf .byValue .repaired mt s true .case 0 ∧
+    stagesOf .byCell .repaired mt s true .case 1 = stagesOf .byValue .repaired mt s true .case 1 := by
+  decide
+
+/-- non-vacuity of the pipeline statements: three scopes, four kinds, filtered and unfiltered hooks -/
+example :
+    let s := run .repaired (init 3 fun m => m)
+      [.registerFn 2 0 (.gen .map .query), .regApply 0 true 0, .registerFn 0 1 (.gen .flatmap .query),
+       .registerFn 1 2 (.gen .filter .query), .regApply 1 false 0, .registerFn 1 3 (.gen .map .query),
+       .registerFn 0 4 (.gen .beforeGenerate .query), .registerFn 0 5 (.gen .map .body)]
+    let mt : Nat → Nat → Bool := fun f o => f == 0 && o == 0
+    stagesOf .byValue .repaired mt s true .query 0 =
+      [(0, .beforeGenerate, 4, some 0), (0, .flatmap, 1, some 0), (1, .filter, 2, some 0), (2, .map, 0, some 0)] ∧
+    stagesOf .byValue .repaired mt s true .query 1 =
+      [(0, .beforeGenerate, 4, some 1), (1, .filter, 2, some 1), (1, .map, 3, some 1), (2, .map, 0, some 1)] ∧
+    stagesOf .byValue .repaired mt s false .query 1 =
+      [(0, .beforeGenerate, 4, some 1), (1, .filter, 2, some 1), (1, .map, 3, some 1)] := by
+  decide
+
+example :
+    let xs : List (Action × Nat × Option Nat) :=
+      [(.beforeGenerate, 4, some 1), (.filter, 2, some 1), (.map, 3, some 1), (.flatmap, 0, some 1)]
+    denote probe xs (sPure []) [7] =
+      ([⟨.filter, 2, some 1, []⟩, ⟨.map, 3, some 1, []⟩, ⟨.flatmap, 0, some 1, [3]⟩], some ([3, 0], [7])) := by
+  decide
+
+/-- a rejecting `filter` hook: the draw is rejected and the later stages are not reached (prefix case of
+    `draw_calls_exact`) -/
+example :
+    let I : Interp (List Nat) := { probe with filt := fun _ _ _ => false }
+    denote I [(.filter, 2, some 1), (.map, 3, some 1)] (sPure []) [] = ([⟨.filter, 2, some 1, []⟩], none) := by
+  decide
 
 /-! ### registration happens on the dispatcher of the `register` used, unregistration removes exactly that hook -/
 
